@@ -139,6 +139,10 @@ Proof. exact generated_shapes_tables_op. Qed.
 Theorem c11_plain_structures_unchanged_misc : plain_hold raw_decls plain_misc = true.
 Proof. exact generated_plain_misc. Qed.
 
+(* the cargo features are independent switches with nothing on by default: a feature set of the model means exactly its cfgs *)
+Theorem c11_feature_table_unchanged : features_hold cargo_features = true.
+Proof. exact generated_features. Qed.
+
 Eval vm_compute in "ASSUMPTIONS c11_recognised_exact". Print Assumptions c11_recognised_exact.
 Eval vm_compute in "ASSUMPTIONS c11_vendor_try_from". Print Assumptions c11_vendor_try_from.
 Eval vm_compute in "ASSUMPTIONS c11_roundtrip". Print Assumptions c11_roundtrip.
@@ -158,3 +162,4 @@ Eval vm_compute in "ASSUMPTIONS c11_modelled_functions_unchanged_request". Print
 Eval vm_compute in "ASSUMPTIONS c11_modelled_dependencies_pinned". Print Assumptions c11_modelled_dependencies_pinned.
 Eval vm_compute in "ASSUMPTIONS c11_modelled_functions_unchanged_tables_op". Print Assumptions c11_modelled_functions_unchanged_tables_op.
 Eval vm_compute in "ASSUMPTIONS c11_plain_structures_unchanged_misc". Print Assumptions c11_plain_structures_unchanged_misc.
+Eval vm_compute in "ASSUMPTIONS c11_feature_table_unchanged". Print Assumptions c11_feature_table_unchanged.
